@@ -8,3 +8,4 @@ import PorepyVerif.C11.Props
 #print axioms PorepyVerif.C11.region_solver_exact
 #print axioms PorepyVerif.C11.face_flux_exact
 #print axioms PorepyVerif.C11.face_pressure_exact
+#print axioms PorepyVerif.C11.mpfa2d_linear_exact
